@@ -6,7 +6,7 @@ import ExaModel.Driver.Util
    reload load <ok|first|syn:k|exc:k|missing> <procs> <nbr>*     → ok | fail
         nbr   = name/key/fams/adj/routes      fams = 1.2   adj = 0|1
         route = n:f:a:h:g  |  n:f:a:h:g:w:p   (watchdog w, parked p)      routes comma separated, - = none
-   reload nbrs | procs | peers | ribs | dirty
+   reload nbrs | procs | peers | ribs
    reload rib <name>
    reload api <name> add <route> <force> | reload api <name> del <n> <f>
    reload looptop|lost|est|start|sendupd <name>
@@ -91,7 +91,6 @@ def reloadLine (w : World) (ws : List String) : World × String :=
   | ["procs"] => (w, joinWith "," ((sortNats w.procs).map toString))
   | ["peers"] => (w, joinWith "," (w.peers.map (fun p => showPeer p.1 p.2)))
   | ["ribs"] => (w, joinWith "," ((sortNats (AList.keys w.ribs)).map toString))
-  | ["dirty"] => (w, b w.dirty)
   | ["rib", name] =>
     match name.toNat? with
     | some a => (w, match AList.lookup a w.ribs with | some s => showRib s | none => "none")
